@@ -129,7 +129,10 @@ def payload(rng, i):
     forms = ['<vx7q%d a=1>x</vx7q%d>' % (i, i), '"><vx7q%d b=2>' % i, "' vx7qattr%d='1" % i, '" vx7qattr%d="1' % i,
              '&lt;vx7q%d&gt; &amp; &#60;vx7q%d&#62;' % (i, i), '{vx7q%d}{#vx7q%d}x{/vx7q%d}{~lb}{>part/}' % (i, i, i),
              '</p></pre></td></title><vx7q%d>' % i, '<!-- vx7q%d --><script>vx7q%d()</script>' % (i, i),
-             '<![CDATA[<vx7q%d>]]>' % i, ']]><vx7q%d/>' % i, 'plain vx7qtext%d' % i]
+             '<![CDATA[<vx7q%d>]]>' % i, ']]><vx7q%d/>' % i, 'plain vx7qtext%d' % i,
+             # compatibility characters that Unicode normalisation (NFKC/NFKD) or a lossy transcoding turns into markup
+             '\uff1cvx7q%d a=1\uff1ex\uff1c/vx7q%d\uff1e' % (i, i), '\ufe64vx7q%d\ufe65 \uff06amp; \uff02 vx7qattr%d=\uff021' % (i, i),
+             '\uff02\uff1e\uff1cvx7q%d\uff1e\uff3c' % i, '\u2039vx7q%d\u203a \u00abvx7q%d\u00bb \uff07' % (i, i)]
     p = rng.pick(forms)
     if rng.chance(0.12):
         # long fields: anything that shortens, wraps or post-processes a field after escaping shows here
